@@ -9,9 +9,7 @@ void harness(void);
 int main(void) {
   harness();
   __CPROVER_assert(!verif_exc_active, "H: no exception escapes the wrapper");
-#ifdef WITNESS
-  __CPROVER_assert(0, "WITNESS");
-#endif
+  __CPROVER_assert(0, "WITNESS"); /* reachability witness: must FAIL, otherwise the query was vacuous */
   return 0;
 }
 #endif
@@ -21,8 +19,15 @@ void verif_unmodelled(const char* name) { (void)name; __CPROVER_assert(0, "UNMOD
 void X_verif_assert(uint32_t c) { __CPROVER_assert(c, "H: wrapper/shim assertion"); }
 
 /* heap: allocation never fails (allocation failure is outside every claim) */
-uint8_t* X__Znwm(uint64_t n) { uint8_t* p = malloc(n); __CPROVER_assume(p != 0); return p; }
-uint8_t* X__Znam(uint64_t n) { uint8_t* p = malloc(n); __CPROVER_assume(p != 0); return p; }
+#ifdef VERIF_NEW_BLOCK
+/* operator new hands out fixed-size blocks (std::string / std::vector storage): a request above the block size is an
+ * assertion failure ("bound"), never silently truncated. Symbolic-size heap objects send CBMC into its array theory. */
+static uint8_t* verif_new(uint64_t n) { __CPROVER_assert(n <= VERIF_NEW_BLOCK, "BOUND: operator new request exceeds VERIF_NEW_BLOCK"); __CPROVER_assume(n <= VERIF_NEW_BLOCK); uint8_t* p = malloc(VERIF_NEW_BLOCK); __CPROVER_assume(p != 0); return p; }
+#else
+static uint8_t* verif_new(uint64_t n) { uint8_t* p = malloc(n); __CPROVER_assume(p != 0); return p; }
+#endif
+uint8_t* X__Znwm(uint64_t n) { return verif_new(n); }
+uint8_t* X__Znam(uint64_t n) { return verif_new(n); }
 void X__ZdlPv(uint8_t* p) { free(p); }
 void X__ZdlPvm(uint8_t* p, uint64_t n) { (void)n; free(p); }
 void X__ZdaPv(uint8_t* p) { free(p); }
